@@ -73,7 +73,15 @@ def lean_line(case, top, compiled):
             f'{enc.nsmap(case.get("ns"))} ({qs}))')
 
 
-def run_cases(cases):
+def lean_line_e2e(case, top):
+    """End-to-end request: the selector TEXT goes to the parser model, its IR to the matcher model."""
+    qs = ' '.join(f'({OPS[op]} {enc.path(p)} {arg})' for op, p, arg in case['queries'])
+    cs = ' '.join(f'({enc.s(k)} {enc.s(v)})' for k, v in (case.get('custom') or {}).items())
+    return (f'(17 {enc.bidi_env(top)} {enc.doc(top)} {enc.s(case["selector"])} ({cs}) '
+            f'{enc.nsmap(case.get("ns"))} ({qs}))')
+
+
+def run_cases(cases, e2e=True):
     """Run all cases on both sides.  Returns (results, stats) where results is a list of dicts
     {case, py, lean, agree}."""
     lines = []
@@ -87,15 +95,26 @@ def run_cases(cases):
             continue
         try:
             lines.append(lean_line(case, top, compiled))
-            idx.append(i)
+            idx.append((i, 'ir'))
+            if e2e and not case.get('flags') and not case.get('no_e2e'):
+                lines.append(lean_line_e2e(case, top))
+                idx.append((i, 'e2e'))
         except Exception as e:   # encoder could not express the case: reported, not hidden
             rec['lean'] = ('encode-exc', repr(e))
     resp = driver.run(lines)
-    for i, line in zip(idx, resp):
+    for (i, which), line in zip(idx, resp):
         rec = out[i]
-        rec['lean'] = enc.parse_sx(line)
-        if rec['py'][0] == 'ok':
-            rec['agree'] = rec['py'][1] == rec['lean']
+        if which == 'ir':
+            rec['lean'] = enc.parse_sx(line)
+            if rec['py'][0] == 'ok':
+                rec['agree'] = rec['py'][1] == rec['lean']
+            else:
+                rec['agree'] = False    # PY raised inside matching: the model never raises
         else:
-            rec['agree'] = False    # PY raised inside matching: the model never raises
+            r = enc.parse_sx(line)
+            rec['lean_e2e'] = r
+            ok = rec['py'][0] == 'ok' and isinstance(r, list) and len(r) == 2 and r[0] == 0 and r[1] == rec['py'][1]
+            if not ok:
+                rec['agree'] = False
+                rec['e2e_differs'] = True
     return out
